@@ -84,7 +84,22 @@ def h_accept(params, s: str):
     if "len" in params:
         assume(len(s) == params["len"])
     sp = spec_parse(s)
-    assume(sp != "edge")
+    if sp == "edge":
+        # acceptance of hyphen-edge strings is not settled by the statement (see ASSUMPTIONS);
+        # but IF such a string is accepted, str() and recomposition must still be exact and a
+        # no-op assignment must not change it
+        try:
+            v = Version(s)
+        except ValueError:
+            return
+        require(str(v) == s, "str() differs", s=s, got=str(v))
+        rc = ("" if v.epoch is None else v.epoch + ":") + v.upstream_version + \
+             ("" if v.debian_revision is None else "-" + v.debian_revision)
+        require(rc == s, "components of an accepted version do not recompose to it", s=s, got=rc,
+                parts=(v.epoch, v.upstream_version, v.debian_revision))
+        v.epoch = v.epoch
+        require(str(v) == s, "re-assigning the epoch to itself changed the version", s=s, got=str(v))
+        return
     try:
         v = Version(s)
     except ValueError:
